@@ -1273,6 +1273,12 @@ class VariationalWassersteinDistance(darsia.EMD):
             stats["amg residual"] = self.res_history_amg[-1]
             stats["amg residuals"] = self.res_history_amg
 
+        # Iterative solvers may break down without notice (e.g. for degenerate
+        # mobilities); treat a non-finite solution as a failed solve, such that it does
+        # not enter the iterate.
+        if not np.all(np.isfinite(solution)):
+            raise RuntimeError("Linear solver returned a non-finite solution.")
+
         return solution, stats
 
     def eliminate_flux(self, jacobian: sps.csc_matrix, residual: np.ndarray) -> tuple:
